@@ -107,7 +107,7 @@ Proof.
     + destruct (held th) as [|[l0 k] h]; (injection Hact as Eg' Eth'; subst g' th'); g3_same g Ht HG3.
     + (* Stmt *)
       unfold sem in Hact. rewrite Hst0 in Hact. (injection Hact as Eg' Eth'; subst g' th').
-      destruct (req_stmt _ _ _ _ Hreq) as [_ [_ [Hre _]]].
+      destruct (req_stmt _ _ _ _ _ Hreq) as [_ [_ [Hre _]]].
       pose proof (muts_nolatest t e g th) as Hnl. pose proof (regs_g3 t e g th) as Hrg.
       destruct e; try (destruct Hrg as [E1 [E2 E3]]; eapply (GI3_generic g); [apply fold_mut_ext | apply fold_mut_lat; auto | exact Ht | exact E1 | exact E2 | exact E3 | exact HG3]).
       * (* EAppend *)
@@ -155,10 +155,10 @@ Proof.
       (injection Hact as Eg' Eth'; subst g' th'). destruct (note_full_T c0 (evalc c c0 g th) g th Hst0) as [A B].
       eapply (GI3_generic g); [rewrite A; apply T_ext_refl | exact B | exact Ht | | | | exact HG3]; destruct c0, (evalc c _ g th); reflexivity.
     + (injection Hact as Eg' Eth'; subst g' th'). g3_same g Ht HG3.
-    + destruct k; (injection Hact as Eg' Eth'; subst g' th').
-      * g3_same g Ht HG3.
-      * destruct (to_script_g3 None true th) as [E1 [E2 E3]]. eapply (GI3_generic g); [apply T_ext_refl | reflexivity | exact Ht | exact E1 | exact E2 | exact E3 | exact HG3].
-      * destruct (to_script_g3 None true th) as [E1 [E2 E3]]. eapply (GI3_generic g); [apply T_ext_refl | reflexivity | exact Ht | exact E1 | exact E2 | exact E3 | exact HG3].
+    + assert (Hfin : g' = g -> th' = th_pc None th -> GI3 g' (set_th ts t th')) by (intros; subst; g3_same g Ht HG3).
+      assert (Hscr : g' = g -> th' = to_script None true th -> GI3 g' (set_th ts t th')).
+      { intros; subst. destruct (to_script_g3 None true th) as [E1 [E2 E3]]. eapply (GI3_generic g); [apply T_ext_refl | reflexivity | exact Ht | exact E1 | exact E2 | exact E3 | exact HG3]. }
+      destruct k; try destruct (Nat.eqb p P_init); injection Hact as Eg' Eth'; auto.
     + (injection Hact as Eg' Eth'; subst g' th'). destruct (to_script_g3 (auto_reward c g p th) false th) as [E1 [E2 E3]]. eapply (GI3_generic g); [apply T_ext_refl | reflexivity | exact Ht | exact E1 | exact E2 | exact E3 | exact HG3].
 Qed.
 
